@@ -87,12 +87,22 @@ inductive GRec where
   | date (v : Nat)
   /-- a record the globals loop ignores (`typ` outside the interpreted ids, not CONTINUE) -/
   | neutral (typ : Nat) (data : Bytes)
+  /-- Lbl (defined name): name units, packing, itab, formula bytes -/
+  | lbl (units : List Nat) (wide : Bool) (itab : Nat) (rgce : Bytes)
+  /-- ExternSheet: XTI entries (iSupBook, itabFirst, itabLast) as 16-bit patterns -/
+  | extern (xtis : List (Nat × Nat × Nat))
   deriving Repr, DecidableEq
+
+def xtiBytes (x : Nat × Nat × Nat) : Bytes := le16 x.1 ++ le16 x.2.1 ++ le16 x.2.2
+
+def externData (xtis : List (Nat × Nat × Nat)) : Bytes := le16 xtis.length ++ xtis.flatMap xtiBytes
 
 def GRec.bytes : GRec → Bytes
   | .sheet s => record 0x0085 s.payload
   | .date v => record 0x0022 (le16 v)
   | .neutral t d => record t d
+  | .lbl us w it rg => record 0x0018 (encodeLbl us w it rg)
+  | .extern x => record 0x0017 (externData x)
 
 /-- globals substream: BOF, the records, EOF, then whatever follows in the stream (sheet substreams) -/
 def encodeGlobals (recs : List GRec) (tail : Bytes) : Bytes :=
@@ -115,21 +125,48 @@ def XlsSheet.kind (s : XlsSheet) : SheetType := (Gen.xlsKindTable.lookup s.dt).g
 def XlsSheet.decoded (s : XlsSheet) : Nat × Sheet Text :=
   (s.offset, ⟨(Biff.decodeUtf16 s.units).filter (· != 0), s.kind, s.vis⟩)
 
-def GRec.ok : GRec → Prop
+/-- the value of a 16-bit pattern read as `i16` -/
+def asI16 (n : Nat) : Int := if n < 32768 then (n : Int) else (n : Int) - 65536
+
+/-- `pd` = the defined-name formula decoder (`parse_defined_names`, C14): it must accept the formula bytes -/
+def GRec.ok (pd : Bytes → Res (Option Nat × Text)) : GRec → Prop
   | .sheet s => s.ok
   | .date v => v < 65536
   | .neutral t d => t < 65536 ∧ t ∉ interpretedIds ∧ d.length < 65536
+  | .lbl us w it rg =>
+    us.length < 256 ∧ (∀ u ∈ us, u < (if w then 65536 else 256)) ∧ it < 65536 ∧ rg.length < 65536 ∧
+      (encodeLbl us w it rg).length < 65536 ∧ (pd rg).isOk = true
+  | .extern x => x.length < 65536 ∧ (∀ e ∈ x, e.1 < 65536 ∧ e.2.1 < 65536 ∧ e.2.2 < 65536) ∧ (externData x).length < 65536
+
+/-- what `pd` made of the formula bytes -/
+def pdValue (pd : Bytes → Res (Option Nat × Text)) (rg : Bytes) : Option Nat × Text :=
+  match pd rg with
+  | .ok r => r
+  | _ => (none, [])
 
 /-- the effect a record is expected to have on the loop state -/
-def applyRec (st : XlsSt) : GRec → XlsSt
+def applyRec (pd : Bytes → Res (Option Nat × Text)) (st : XlsSt) : GRec → XlsSt
   | .sheet s => { st with sheets := st.sheets ++ [s.decoded] }
   | .date v => if v = 1 then { st with is1904 := true } else st
   | .neutral _ _ => st
+  | .lbl us _ _ rg => { st with names := st.names ++ [(Biff.decodeUtf16 us, pdValue pd rg)] }
+  | .extern x => { st with xtis := st.xtis ++ x.map (fun e => asI16 e.2.1) }
 
 def declaredSheets : List GRec → List XlsSheet
   | [] => []
   | .sheet s :: rs => s :: declaredSheets rs
   | _ :: rs => declaredSheets rs
+
+/-- the defined names as the loop collects them: name, (ixti, text) of the formula decoder -/
+def declaredNames (pd : Bytes → Res (Option Nat × Text)) : List GRec → List (Text × Option Nat × Text)
+  | [] => []
+  | .lbl us _ _ rg :: rs => (Biff.decodeUtf16 us, pdValue pd rg) :: declaredNames pd rs
+  | _ :: rs => declaredNames pd rs
+
+def declaredXtis : List GRec → List Int
+  | [] => []
+  | .extern x :: rs => x.map (fun e => asI16 e.2.1) ++ declaredXtis rs
+  | _ :: rs => declaredXtis rs
 
 /-- the workbook uses the 1904 date system iff some DATEMODE record carries 1 -/
 def declared1904 (recs : List GRec) : Bool := recs.any fun r => match r with | .date v => v == 1 | _ => false
